@@ -328,11 +328,21 @@ class Body:
         """{variant index: edge} of the SwitchInt(s) on the discriminant of `local` (Option: 0 None, 1 Some)"""
         out = {}
         for bb in range(self.n):
-            sw = self.switch_on(bb)
-            if sw and isinstance(sw[0], tuple) and sw[0][0] == "discr" and isinstance(sw[0][1], tuple) and sw[0][1][0] == "var" and sw[0][1][2] == local:
-                for v, tgt in sw[1].items():
+            t = self.term(bb)
+            if t["k"] != "SwitchInt":
+                continue
+            dl = (t["discr"].get("move") or t["discr"].get("copy") or {}).get("l")
+            hit = False
+            # the switched temporary is `discriminant(<local>)`, wherever in the block (or a predecessor-free chain) it is computed
+            for blk in self.blocks:
+                for st in blk["stmts"]:
+                    if st["k"] == "Assign" and st["place"]["l"] == dl and not st["place"]["p"] and st["rv"]["k"] == "Discriminant" \
+                            and st["rv"]["place"]["l"] == local and not st["rv"]["place"]["p"]:
+                        hit = True
+            if hit:
+                for v, tgt in t["targets"]:
                     out.setdefault(v, (bb, tgt))
-                out.setdefault("otherwise", (bb, sw[2]))
+                out.setdefault("otherwise", (bb, t["otherwise"]))
         return out
 
     def switch_on(self, bb):
